@@ -107,3 +107,29 @@ def distribution(stats):
             "shared_journeys": hist("shared_journeys"), "shared_network": hist("shared_network"),
             "deleting_jobs": hist("deleting_jobs"), "zones": zones, "server_types": types,
             "max_series_len": max(s["max_series_len"] for s in stats)}
+
+
+def run_corpus(prop, oracles):
+    """corpus cases (minimised past failures and known-finding witnesses) run first"""
+    import os
+    from harness.common import VERIF
+    d = os.path.join(VERIF, "corpus", prop)
+    vs = []
+    n = 0
+    if os.path.isdir(d):
+        for f in sorted(os.listdir(d)):
+            if not f.endswith(".json"):
+                continue
+            with open(os.path.join(d, f)) as fh:
+                w = json.load(fh)
+            spec = w["spec"]
+            st, obs, rs = kcalc.real_outcome(spec)
+            n += 1
+            for name in w.get("oracles", oracles):
+                found, _ = getattr(sysoracles, name)(spec, st, obs, rs, random.Random(0))
+                for v in found:
+                    v.setdefault("replay", {})["spec"] = spec
+                    v["replay"]["oracle"] = name
+                    v["replay"]["corpus"] = f
+                    vs.append(v)
+    return vs, n
